@@ -58,7 +58,7 @@ def tla_const(v):
 
 
 def mc(ctx, name, module, constants, invariants=(), init="MCInit", nxt="MCNext", dump=False, workers=NCPU,
-       timeout=3000, properties=(), constraint=None, coverage=False, simulate=None, extra=()):
+       timeout=3000, properties=(), constraint=None, coverage=False, simulate=None, extra=(), deadlock=False):
     """Exhaustive TLC run of a bounded instance. Invariant violations are machinery errors here: the
     spec modules state the properties, so a violated invariant means the rules contradict each other
     (a bug in the spec), not a defect of ioos_qc."""
@@ -76,7 +76,7 @@ def mc(ctx, name, module, constants, invariants=(), init="MCInit", nxt="MCNext",
             f.write("PROPERTY %s\n" % p)
         if constraint:
             f.write("CONSTRAINT %s\n" % constraint)
-        f.write("CHECK_DEADLOCK FALSE\n")
+        f.write("CHECK_DEADLOCK %s\n" % ("TRUE" if deadlock else "FALSE"))
     ex = list(extra)
     dump_path = None
     if dump:
@@ -88,6 +88,9 @@ def mc(ctx, name, module, constants, invariants=(), init="MCInit", nxt="MCNext",
     if simulate:
         ex += ["-simulate", simulate]
     res = tlc.run_tlc(module, cfg=cfg, workers=workers, extra=ex, timeout=timeout, tag="%s_%s" % (ctx.prop, name))
+    if deadlock and "Deadlock reached" in res["stdout"]:
+        raise tlc.MachineryError("the model deadlocks (a run that cannot complete) in %s/%s:\n%s" % (
+            module, name, "\n".join(res["stdout"].splitlines()[-40:])))
     if res["invariant_violated"]:
         raise tlc.MachineryError("spec-level invariant %s violated in %s/%s (the rules contradict a property):\n%s" % (
             res["invariant_violated"], module, name, "\n".join(res["stdout"].splitlines()[-60:])))
